@@ -198,7 +198,14 @@ def run_driver(binary, history_lines, workdir, tag="h"):
         f.write("\n".join(history_lines) + "\n")
     env = {"ASAN_OPTIONS": "detect_leaks=0:exitcode=44:abort_on_error=0:symbolize=0", "UBSAN_OPTIONS": "halt_on_error=1:exitcode=45:print_stacktrace=0", "PATH": "/usr/bin:/bin"}
     try:
-        r = subprocess.run([binary, hp], capture_output=True, text=True, env=env, timeout=60, errors="replace")
+        # bounded by the CPU time of the driver (20 s; a history takes well under one), not by wall-clock time, which depends
+        # on the load of the machine; the wall-clock limit is a backstop only
+        def _limit():
+            import resource
+            resource.setrlimit(resource.RLIMIT_CPU, (20, 21))
+        r = subprocess.run([binary, hp], capture_output=True, text=True, env=env, timeout=900, errors="replace", preexec_fn=_limit)
+        if r.returncode in (-24, -9):
+            return {"rc": -999, "out": r.stdout, "err": "cpu bound"}
         kernel.digest_update("driver rc=%d\n%s\n%s" % (r.returncode, "\n".join(history_lines), r.stdout))
         return {"rc": r.returncode, "out": r.stdout, "err": r.stderr}
     except subprocess.TimeoutExpired as e:
